@@ -1,6 +1,7 @@
 package main
 
 import (
+	"os"
 	"fmt"
 	"go/ast"
 	"go/token"
@@ -860,6 +861,9 @@ func (ex *Exec) finishFrame(st *State, fr *Frame, res Value, work *[]*State) {
 			return
 		}
 		ex.Returns++
+		if os.Getenv("VCGO_TRACE") != "" {
+			fmt.Fprintln(os.Stderr, "RETURN", ex.TopName, strings.Join(st.Trace, " "))
+		}
 		ex.checkPost(st, fr, res)
 		st.Dead = true
 		return
